@@ -1,7 +1,7 @@
 # Type definitions extracted from /repo (R0: attributes and docs dropped) and shared by several groups.
 
-PARSE_ERROR = dict(id='T.ParseError', kind='enum', name='ParseError', file='purl/src/parse.rs')
-PURL_FIELD = dict(id='T.PurlField', kind='enum', name='PurlField', file='purl/src/parse.rs')
+PARSE_ERROR = dict(id='T.ParseError', kind='enum', name='ParseError', file='purl/src/parse.rs', attrs='#[derive(Debug)]')
+PURL_FIELD = dict(id='T.PurlField', kind='enum', name='PurlField', file='purl/src/parse.rs', attrs='#[derive(Debug, Clone, Copy)]')
 PURL_PARTS = dict(id='T.PurlParts', kind='struct', name='PurlParts', file='purl/src/lib.rs')
 QUALIFIERS = dict(id='T.Qualifiers', kind='struct', name='Qualifiers', file='purl/src/qualifiers.rs')
 QUALIFIER_KEY = dict(id='T.QualifierKey', kind='struct', name='QualifierKey', file='purl/src/qualifiers.rs')
@@ -21,7 +21,10 @@ PURL_SHAPE = dict(
         ('R10', r'fn finish\(&mut self, parts: &mut PurlParts\) -> Result<\(\), Self::Error>;',
          '''spec fn finish_rel(t0: Self, p0: PurlParts, t1: Self, p1: PurlParts, r: Result<(), Self::Error>) -> bool;
     fn finish(&mut self, parts: &mut PurlParts) -> (r: Result<(), Self::Error>)
-        ensures Self::finish_rel(*old(self), *old(parts), *final(self), *final(parts), r);''', 1),
+        ensures Self::finish_rel(*old(self), *old(parts), *final(self), *final(parts), r),
+            // the hook can only reach the qualifier list through its public API, every mutator of which is
+            // proved to preserve the representation invariant (group `qual`); assumed for user-written hooks
+            wf_seq(old(parts).qualifiers.qualifiers@) ==> wf_seq(final(parts).qualifiers.qualifiers@);''', 1),
     ])
 
 
